@@ -110,6 +110,9 @@ class NameSanitizer:
         "hashlib",
         "base64",
         "copy",
+        # The receiver names of generated methods: a parameter spelled like them would duplicate an argument
+        "self",
+        "cls",
         "re",
         # Other problematic names
         "data",
